@@ -339,3 +339,155 @@ ADDED = {
 for _k, _v in ADDED.items():
     if _k in CHECKS:
         CHECKS[_k] = dict(CHECKS[_k], text=CHECKS[_k]['text'] + ' ' + _v)
+
+
+# ---------------------------------------------------------------------------
+# What the evidence files say about bounds, stubs and assumptions (merged into
+# each check's META by lib/runner.py when the module does not say it itself).
+_G1_STUBS = [
+    'numpy inside treadmill.scheduler -> lib/symnp.py (exact integers / '
+    'fractions, If-merged max / maximum / minimum)',
+    'scheduler._any / _all -> one Or / And term',
+    'time.time in treadmill.scheduler -> fixed instant (harness clock)',
+]
+_G1_ASSUME = [
+    'every capacity / demand component in 0..4095 (the integer / fraction '
+    'model of numpy is IEEE-exact there)',
+    'utilisation denominators of exactly 1 excluded (x + eps absorption)',
+    'priorities in index order (strict), ties only where the check says so',
+    'pre-states built through Server.restore; paths where a restore is refused '
+    'are ignored',
+]
+_G1_OUT = ['more than 3-4 instances / 2-3 servers / 3 dimensions',
+           'histories longer than the listed events + two cycles',
+           'IEEE-754 effects for quantities above 4095']
+_G2_STUBS = [
+    'ZooKeeper backend -> lib/g2.py MemBackend (znodes with integer ctime '
+    'ticks, write log, crash before write k)',
+    'Master._save_placement -> one logged write (json + zlib blob not built)',
+    'loader.resources: integers pass through, strings go to the real parsers',
+    'time.time in loader / master -> harness clock',
+] + _G1_STUBS
+_ZK_STUBS = ['kazoo client -> lib/memzk.py (ephemeral owners, ticks, sequence '
+             'nodes, NoNode / NodeExists, adversary hook before every call)']
+
+EVIDENCE_COMMON = {
+    'assumes': ['z3 and the CrossHair tracer are trusted; every completed '
+                'path is replayed on the unstubbed code'],
+}
+
+EVIDENCE_META = {
+    'C01': {'bounds': {'instances': 3, 'servers': 2, 'dimensions': 2,
+                       'events_before_cycle': 1, 'cycles': '1-2',
+                       'values': '0..4095 (loader level 0..2^21)',
+                       'unit_spellings': 'digit strings <= 3 digits'},
+            'stubs': _G2_STUBS, 'assumes': _G1_ASSUME, 'outside_bounds': _G1_OUT},
+    'C02': {'bounds': {'step': 'pod-rack-server, 3 servers, D = 2, one '
+                               'mutator from an arbitrary aggregate state',
+                       'probe': '2 servers, <= 3 residents, D <= 2'},
+            'stubs': _G1_STUBS, 'assumes': _G1_ASSUME + [
+                'probe worlds: the first cycle changes nothing (quiescent)'],
+            'outside_bounds': _G1_OUT},
+    'C03': {'bounds': {'instances': 3, 'servers': 2, 'partitions': 2,
+                       'trait_bits': 3, 'lease': '3600 s, expiry and '
+                       'valid_until symbolic', 'master_level': '2 servers, 2 '
+                       'instances, 2 events'},
+            'stubs': _G2_STUBS, 'assumes': _G1_ASSUME, 'outside_bounds': _G1_OUT},
+    'C04': {'bounds': {'instances': 3, 'servers': '2-3', 'levels': 'server / '
+                       'rack / pod / cell', 'limits': '1-3', 'cycles': 2},
+            'stubs': _G1_STUBS, 'assumes': _G1_ASSUME + [
+                'pre-state satisfies the declared limits'],
+            'outside_bounds': _G1_OUT},
+    'C05': {'bounds': {'instances': 3, 'servers': 2, 'group_count': '1-2',
+                       'events_before_cycle': '1-2', 'cycles': 2},
+            'stubs': _G1_STUBS, 'assumes': _G1_ASSUME, 'outside_bounds': _G1_OUT},
+    'C06': {'bounds': {'instances': 3, 'allocations': '1-3 (nested <= 2 '
+                       'levels)', 'rank / adjustment / priority / demand':
+                       'symbolic', 'reservation': '{0,2,5}', 'cap': '{none, 1, '
+                       '1.5, 2}'},
+            'stubs': _G1_STUBS, 'assumes': [a for a in _G1_ASSUME
+                                            if 'priorities' not in a] + [
+                'servers large enough for everything ranked'],
+            'outside_bounds': _G1_OUT},
+    'C07': {'bounds': {'instances': '3-4', 'servers': 2, 'cycles': 2},
+            'stubs': _G1_STUBS, 'assumes': _G1_ASSUME, 'outside_bounds': _G1_OUT},
+    'C08': {'bounds': {'instances': 3, 'servers': 2, 'cycles': '1-4',
+                       'master_level': '9 cycles, retention 7200 s, concrete '
+                       'capacities'},
+            'stubs': _G2_STUBS, 'assumes': _G1_ASSUME, 'outside_bounds': _G1_OUT},
+    'C09': {'bounds': {'servers': 2, 'instances': '2-3', 'stored_states': 24,
+                       'events': '1-3', 'cycles': 'start-up + event + idle'},
+            'stubs': _G2_STUBS, 'assumes': ['memory is the only symbolic '
+                                            'dimension (cpu / disk ample)'],
+            'outside_bounds': ['3+ servers', 'kazoo session events']},
+    'C10': {'bounds': {'servers': 2, 'instances': '2-3', 'crash_index':
+                       'symbolic over all writes of start-up or of event + '
+                       'cycle + integrity check'},
+            'stubs': _G2_STUBS, 'assumes': ['a crash loses no write that was '
+                                            'acknowledged (ZooKeeper is '
+                                            'linearisable)'],
+            'outside_bounds': ['two crashes in a row', '3+ servers']},
+    'C11': {'bounds': {'servers': 2, 'instances': '2-3', 'between_masters':
+                       '6 kinds of change'},
+            'stubs': _G2_STUBS, 'assumes': [], 'outside_bounds': ['3+ servers']},
+    'C12': {'bounds': {'instances': 2, 'extra_cache_files': 1, 'fault_index':
+                       'symbolic over the calls of fs.write_safe'},
+            'stubs': _ZK_STUBS + ['real scratch directory; os.stat ctime of '
+                                  'cache files controlled; faults injected '
+                                  'into tempfile / os calls of treadmill.fs'],
+            'assumes': [], 'outside_bounds': ['more than 2 instances']},
+    'C13': {'bounds': {'instances': 1, 'generations': 2, 'steps': 1},
+            'stubs': ['real scratch directory', 'app_cfg.configure -> creates '
+                      'apps/<real unique name> or fails (choice)',
+                      'supervisor.control_svscan, report_aborted -> no-op',
+                      'os.stat of the cache entry reports the generation\'s '
+                      'ctime / inode'],
+            'assumes': ['pre-state link table inside the reachability '
+                        'invariant stated in checks/c13.py'],
+            'outside_bounds': ['two instances interacting', '3+ generations']},
+    'C14': {'bounds': {'network': '/30 (thorough /29)', 'rules': 3, 'specs': 3,
+                       'owners': '2 live + 1 dead', 'operations': '1-3'},
+            'stubs': ['real scratch directory', 'netdev / iptables recorders '
+                      'for the network service'],
+            'assumes': [], 'outside_bounds': ['larger networks']},
+    'C15': {'bounds': {'rule_files': 'all field values (SMT lemmas)',
+                       'base62': 'structure for all n < 2^77, round trip for '
+                       'n < 62^4', 'trace_event_fields': 'words <= 2 chars '
+                       'over alphabets with the separators', 'ldap': 'optional '
+                       'fields one group at a time', 'zk_payload': 'bounded '
+                       'grammar (depth <= 2)'},
+            'stubs': _ZK_STUBS, 'assumes': [], 'outside_bounds': [
+                'string payloads in ZooKeeper', 'longer words']},
+    'C16': {'bounds': {'endpoints': '0-2', 'passthrough_hosts': '0-3',
+                       'ephemeral_ports': '0-3', 'containers': 2,
+                       'interleavings': 6},
+            'stubs': ['real scratch directory (rules, endpoints)',
+                      'iptables ip-set calls -> in-memory sets',
+                      'socket.gethostbyname -> fixed map', 'newnet.'
+                      'create_newnet -> no-op', 'firewall plugin absent'],
+            'assumes': [], 'outside_bounds': ['3+ containers']},
+    'C17': {'bounds': {'requests': '<= 4', 'sessions': 3, 'expiries': '<= 2'},
+            'stubs': _ZK_STUBS + ['retry_request -> recorder'],
+            'assumes': [], 'outside_bounds': ['kazoo threading', 'longer '
+                                              'sequences']},
+    'C18': {'bounds': {'events': 6, 'instances': 3, 'batch': '1-4',
+                       'passes': '1-2'},
+            'stubs': _ZK_STUBS + ['time.time -> integer-seconds wrapper; real '
+                                  'sqlite + zlib'],
+            'assumes': [], 'outside_bounds': ['more events']},
+    'C19': {'bounds': {'existing_reservations': '<= 2', 'trait_limits': '<= 2',
+                       'values': '0..2^40', 'api_level': 'magnitudes from '
+                       'small sets, two spellings'},
+            'stubs': ['context.GLOBAL.admin -> fake objects',
+                      'decorator.getargspec -> inspect.getfullargspec '
+                      '(environment)', 'utils.cpu_units: integers pass '
+                      'through'],
+            'assumes': [], 'outside_bounds': ['3+ reservations']},
+    'C20': {'bounds': {'monitors': '1-2', 'target': '<= 5', 'instances':
+                       '<= 6', 'evaluations': '1-4'},
+            'stubs': ['restclient.post -> outcome chosen symbolically',
+                      'token balance as exact rational (lib/qnum.py)',
+                      'ZooKeeper watches -> captured callbacks / memzk',
+                      'utils.exit_on_unhandled -> identity'],
+            'assumes': [], 'outside_bounds': ['more monitors']},
+}
